@@ -143,8 +143,14 @@ func NewRoundRobinDecoder(dec ...Decoder) Decoder {
 
 // NewDecoder returns a new gob Decoder for the given io.Reader.
 func NewDecoder(rd io.Reader) Decoder {
-	dec := gob.NewDecoder(rd)
+	src := &gobSource{r: bufio.NewReader(rd)}
+	dec := gob.NewDecoder(src)
+	var again bytes.Buffer
+	shadow, primed := gob.NewDecoder(&again), false
 	return func(r *Result) error {
+		if r == nil {
+			return dec.Decode(r)
+		}
 		// gob sizes a nil map by the element count it finds in the stream
 		// before it has read a single element, so a corrupted count of
 		// billions of headers would allocate that much memory. Entries
@@ -153,12 +159,50 @@ func NewDecoder(rd io.Reader) Decoder {
 		if fresh {
 			r.Headers = http.Header{}
 		}
+		src.read = src.read[:0]
 		err := dec.Decode(r)
-		if fresh && len(r.Headers) == 0 {
+		// gob leaves a nil map out of the stream and sends an empty one,
+		// and the non-nil map looks the same after both. A value that came
+		// back without headers is therefore decoded once more, by a second
+		// decoder and into a nil map, which is safe now that the count is
+		// known to be zero. That decoder needs the type definitions too,
+		// which precede the first value.
+		unknown := fresh && len(r.Headers) == 0
+		if unknown {
 			r.Headers = nil
+		}
+		if err == nil && (unknown || !primed) {
+			primed = true
+			again.Write(src.read)
+			var v struct{ Headers http.Header }
+			if shadow.Decode(&v) == nil && unknown {
+				r.Headers = v.Headers
+			}
 		}
 		return err
 	}
+}
+
+// gobSource hands a gob decoder exactly the bytes it asks for (it is an
+// io.ByteReader, so the decoder adds no read-ahead buffer of its own) and
+// keeps those read since it was last reset: the messages of one value.
+type gobSource struct {
+	r    *bufio.Reader
+	read []byte
+}
+
+func (s *gobSource) Read(p []byte) (int, error) {
+	n, err := s.r.Read(p)
+	s.read = append(s.read, p[:n]...)
+	return n, err
+}
+
+func (s *gobSource) ReadByte() (byte, error) {
+	b, err := s.r.ReadByte()
+	if err == nil {
+		s.read = append(s.read, b)
+	}
+	return b, err
 }
 
 // Decode is an an adapter method calling the Decoder function itself with the
